@@ -99,6 +99,20 @@ def run(prop, tier, seed, replay=None, rep=None, finish=True):
                list(range(0, 131)) + [199, 1000, 1999] if tier == 'quick' else list(range(0, 301)) + [999, 1000, 1999], 2,
                'two-part percentage/percentage and percentage/rest specifications x every size 0..130/300: a rounding error '
                'in one part is not masked by the remainder going back to the same part')
+            # symbolic run: the same operators for EVERY treebank size (Apalache, unbounded integers)
+            def apa(maxparts, dev, want):
+                w.write('Apa_SplitConsts.tla', '---- MODULE Apa_SplitConsts ----\n\\* @type: Set(Str);\nDevC == {%s}\n'
+                        'MaxPartsC == %d\n====\n' % (', '.join('"%s"' % d for d in dev), maxparts))
+                outcome, wall, out = core.apalache(w, 'Apa_Split', 'Inv', length=0, timeout=2400)
+                if outcome != want:
+                    raise core.MachineryError('Apalache on Apa_Split (maxparts=%d, Dev=%s): outcome %s, expected %s\n%s'
+                                              % (maxparts, dev, outcome, want, out[-3000:]))
+                rep.extra.setdefault('symbolic_runs', []).append(
+                    {'tool': 'apalache-mc 0.58', 'module': 'Apa_Split', 'invariant': 'Inv', 'max_parts': maxparts,
+                     'size': 'every natural number (unbounded integer)', 'absolute_part_sizes': 'every integer',
+                     'percentages': '-1..150', 'Dev': sorted(dev), 'outcome': outcome, 'wall_s': round(wall, 1)})
+            apa(2 if tier == 'quick' else 3, [], 'NoError')
+            apa(2, ['split_negative_accepted'], 'Error')      # non-vacuity: the deviation must be refuted
             rep.exhaustive = True
             rnd = random.Random(seed)
             for k in range(2000 if tier == 'quick' else 30000):
